@@ -527,6 +527,53 @@ func (r *Run) report(pd *PropDef) int {
 	viol := 0
 	canary := map[string]bool{}
 	os.MkdirAll(filepath.Join(r.Verif, "replays"), 0o755)
+	// thorough tier: every scenario registered for the property is run against the real code. A scenario
+	// stands for the obligations its key matches; a mismatch is expected exactly when a listed finding is
+	// among them. A mismatch that no listed finding explains is a failing input of the real code for a
+	// behaviour the contracts claim (or do not reach): reported as a violation, the output is the replay.
+	if r.Thorough && r.L != nil && r.L.ByName["interp"] != nil {
+		if out, ok := runPropertyScenarios(r.Repo, r.Verif, r.Prop); ok {
+			matches := func(key, name string) bool {
+				if strings.HasSuffix(key, "*") {
+					return strings.HasPrefix(name, strings.TrimSuffix(key, "*"))
+				}
+				return key == name
+			}
+			nOK, nExpected, nBad := 0, 0, 0
+			for _, ln := range strings.Split(out, "\n") {
+				switch {
+				case strings.HasPrefix(ln, "SCENARIO-OK "):
+					nOK++
+				case strings.HasPrefix(ln, "SCENARIO-MISMATCH "):
+					rest := strings.TrimPrefix(ln, "SCENARIO-MISMATCH ")
+					key := rest
+					if i := strings.Index(rest, " — "); i >= 0 {
+						key = rest[:i]
+					}
+					excused := false
+					for n := range known {
+						if matches(key, n) {
+							excused = true
+						}
+					}
+					if excused {
+						nExpected++
+						continue
+					}
+					nBad++
+					rf := &ReplayFile{Property: r.Prop, Obligation: "scenario:" + key, Clause: "the program registered for " + key + " behaves on the real code as compiled Go / the Go specification prescribes", Status: "mismatch", Solver: "scenario-replay", Output: trunc(ln, 3000), Confirmed: true, Pkg: "interp", Note: "thorough tier: fixed scenario of /verif/replays/helpers run against the real code; no listed finding explains the mismatch"}
+					path := filepath.Join(r.Verif, "replays", sanitize(r.Prop+"_scenario_"+key)+".json")
+					data, _ := json.MarshalIndent(rf, "", " ")
+					os.WriteFile(path, append(data, '\n'), 0o644)
+					fmt.Printf("VIOLATION property=%s replay=%s\n", r.Prop, path)
+					viol++
+					code = 1
+				}
+			}
+			r.Extra["scenario_replays"] = map[string]int{"ok": nOK, "mismatch_explained_by_listed_findings": nExpected, "mismatch_unexplained": nBad}
+			r.Bounded = append(r.Bounded, fmt.Sprintf("thorough tier: %d fixed scenario programs of the property were run against the real code (a bounded consistency test of the contracts' assumptions, not counted as proof)", nOK+nExpected+nBad))
+		}
+	}
 	for _, o := range r.Obls {
 		seen[o.Name] = true
 		switch {
